@@ -527,6 +527,74 @@ return "".join(vals)
     if write_if_changed(os.path.join(outdir, "ParserTables.lean"), "\n".join(out) + "\n"):
         info["changed"].append("ParserTables")
 
+    # ---------------- static usage facts of parser.py ----------------------------
+    def contains_slice_1_m1(node) -> bool:
+        for n in ast.walk(node):
+            if isinstance(n, ast.Subscript) and isinstance(n.slice, ast.Slice):
+                lo, hi = n.slice.lower, n.slice.upper
+                if (
+                    isinstance(lo, ast.Constant) and lo.value == 1
+                    and isinstance(hi, ast.UnaryOp) and isinstance(hi.op, ast.USub)
+                    and isinstance(hi.operand, ast.Constant) and hi.operand.value == 1
+                    and n.slice.step is None
+                ):
+                    return True
+        return False
+
+    def site_sliced(fn: ast.FunctionDef, attr: str) -> typing.Optional[bool]:
+        """In `fn`, is the value stored into `<x>.<attr>` built from a token list that went
+        through `[1:-1]` (directly or through a local variable)?  None = site not found."""
+        sliced_vars = set()
+        plain_vars = set()
+        result = None
+        for n in ast.walk(fn):
+            if isinstance(n, ast.Assign) and len(n.targets) == 1 and isinstance(n.targets[0], ast.Name):
+                uses_balanced = any(isinstance(m, ast.Attribute) and m.attr == "_consume_balanced_tokens" for m in ast.walk(n.value))
+                if uses_balanced:
+                    (sliced_vars if contains_slice_1_m1(n.value) else plain_vars).add(n.targets[0].id)
+                elif any(isinstance(m, ast.Name) and m.id in (sliced_vars | plain_vars) for m in ast.walk(n.value)) and contains_slice_1_m1(n.value):
+                    sliced_vars.add(n.targets[0].id)
+        for n in ast.walk(fn):
+            if isinstance(n, ast.Assign) and len(n.targets) == 1 and isinstance(n.targets[0], ast.Attribute) and n.targets[0].attr == attr:
+                v = n.value
+                direct = contains_slice_1_m1(v)
+                names = {m.id for m in ast.walk(v) if isinstance(m, ast.Name)}
+                uses_bal = any(isinstance(m, ast.Attribute) and m.attr == "_consume_balanced_tokens" for m in ast.walk(v))
+                if direct:
+                    r = True
+                elif uses_bal:
+                    r = False
+                elif names & plain_vars and not (names & sliced_vars):
+                    r = False
+                else:
+                    r = True
+                result = r if result is None else (result and r)
+        return result
+
+    def ret_sliced(fn: ast.FunctionDef) -> bool:
+        """does the function slice its `_consume_balanced_tokens` result with [1:-1] somewhere"""
+        return contains_slice_1_m1(fn)
+
+    sites = {
+        "fnThrowSliced": site_sliced(pfns["_parse_fn_end"], "throw"),
+        "fnNoexceptSliced": site_sliced(pfns["_parse_fn_end"], "noexcept"),
+        "methodThrowSliced": site_sliced(pfns["_parse_method_end"], "throw"),
+        "methodNoexceptSliced": site_sliced(pfns["_parse_method_end"], "noexcept"),
+        "decltypeSliced": ret_sliced(pfns["_parse_pqname_decltype_specifier"]),
+        "arraySizeSliced": ret_sliced(pfns["_parse_array_type"]),
+    }
+    out = []
+    out.append("-- GENERATED by vlib/extract.py from an `ast` scan of cxxheaderparser/parser.py — do not edit")
+    out.append("namespace Cxx.Gen")
+    out.append("/-! For every value whose delimiters are documented as omitted: does the call site")
+    out.append("    apply `[1:-1]` to the collected token list? -/")
+    for k, v in sites.items():
+        out.append(f"def {k} : Bool := {lbool(bool(v))}")
+    out.append("end Cxx.Gen")
+    if write_if_changed(os.path.join(outdir, "Uses.lean"), "\n".join(out) + "\n"):
+        info["changed"].append("Uses")
+    info["value_sites"] = sites
+
     # ---------------- function fingerprints (for change-triggered escalation) ----
     fps = {}
     for fname in sorted(os.listdir(pkgdir)):
